@@ -1,10 +1,73 @@
-(* C19 placeholder, replaced once proofs are in *)
-From Coq Require Import List ZArith Bool.
-From Bfe Require Import lib.Val model.IpDict run.RunC19.
+(* C19: IP dictionaries report exact membership.  Property theorems only.
+   Model: coq/model/IpDict.v (IPItems.InsertPair/Sort with mergeItems/checkMerge and the zero-address
+   tombstones, IPTable.Search); sort.Sort is a parameter. *)
+From Coq Require Import List ZArith Bool Sorted Permutation.
+From Bfe Require Import lib.Val lib.ValProofs model.IpDict run.RunC19 proofs.IpDictProofs.
 Import ListNotations.
 Open Scope Z_scope.
-Example C19_refuted_witness :
-  let w := [(0, 5); (0, 9)] in
-  (build go_insertion_sort w, search (build go_insertion_sort w) 3, spec [] w 3) = ([(0, 0)], false, true).
-Proof. exact witness_refuted. Qed.
-Print Assumptions C19_refuted_witness.
+
+(* HEADLINE.  sort.Sort is only assumed to return a permutation of its input that is sorted w.r.t. the
+   (non-strict) Less of ipPairs -- `valid_sorter`; the two calls inside IPItems.Sort may even behave
+   differently (s1, s2).  For every such sorter, every collection of loaded ranges (start <= end, nested /
+   overlapping / adjacent / duplicated, IPv4-mapped or IPv6) that does not collide with the tombstone
+   encoding (`no_zero_sentinel`: at most one range, or no range starts at :: and none is 0.0.0.0-0.0.0.0),
+   every set of single addresses and every probe address:
+   IPTable.Search reports the probe exactly when it equals a loaded single address or lies inside a loaded
+   range, bounds included.  This is what mod_block and mod_trust_clientip rely on. *)
+Theorem C19_search_exact : forall s1 s2 items singles ip,
+  valid_sorter s1 -> valid_sorter s2 ->
+  forallb wf_rng items = true -> no_zero_sentinel items = true ->
+  table_search singles (build2 s1 s2 items) ip = spec singles items ip.
+Proof. exact search_exact. Qed.
+Print Assumptions C19_search_exact.
+
+(* The guard cannot be dropped (genuine defect, known finding 1): two ranges starting at :: -- after the
+   merge the tombstone (::,::) and the survivor (::,::9) have equal keys, Go's insertion sort (what sort.Sort
+   runs below 13 elements) puts the tombstone first and the reslice drops the survivor: ::3 is not found. *)
+Theorem C19_refuted_v6zero_start :
+  exists items ip, forallb wf_rng items = true /\
+    table_search [] (build go_insertion_sort items) ip = false /\ spec [] items ip = true.
+Proof. exact refuted_v6zero. Qed.
+Print Assumptions C19_refuted_v6zero_start.
+
+(* Known finding 2: 0.0.0.0-0.0.0.5, 0.0.0.2-0.0.0.9 and the pair 0.0.0.0-0.0.0.0: endIP == 0.0.0.0 is
+   taken for a tombstone, is never merged and ends up in front of the merged range 0.0.0.0-0.0.0.9 that has
+   the same start: the binary search stops at it and 0.0.0.1 is not found. *)
+Theorem C19_refuted_v4zero_pair :
+  exists items ip, forallb wf_rng items = true /\
+    table_search [] (build go_insertion_sort items) ip = false /\ spec [] items ip = true.
+Proof. exact refuted_v4zero. Qed.
+Print Assumptions C19_refuted_v4zero_pair.
+
+(* The hypothesis on sort.Sort is satisfiable: Go's insertion sort (as modelled) is a valid sorter. *)
+Theorem C19_insertion_sort_valid : valid_sorter go_insertion_sort.
+Proof. exact go_insertion_sort_valid. Qed.
+Print Assumptions C19_insertion_sort_valid.
+
+(* sort.Search is modelled by its contract (first index whose start is <= ip); the contract applies because
+   the array left by IPItems.Sort is sorted by descending start. *)
+Theorem C19_final_sorted : forall s1 s2 items,
+  valid_sorter s1 -> valid_sorter s2 -> Forall good items ->
+  StronglySorted (fun a b => fst b <= fst a) (build2 s1 s2 items).
+Proof. exact final_sorted. Qed.
+Print Assumptions C19_final_sorted.
+
+(* The executable predicate the harness evaluates on the implementation's answers holds of the model on
+   every decodable input (bytes non-negative) outside the two known-finding classes. *)
+Theorem C19_prop_of_model : forall v i,
+  dec_input v = Some i -> wf_input i -> kf_C19 v = 0 -> prop_C19 v (run_C19 v) = true.
+Proof. exact prop_C19_of_model. Qed.
+Print Assumptions C19_prop_of_model.
+
+(* Non-vacuity: nested, overlapping, touching, adjacent and duplicate ranges around 10.0.0.0 and one IPv6
+   range; the guard holds, three ranges survive the merge, and the search agrees with the specification
+   on bounds and bounds +-1. *)
+Example C19_nonvacuous :
+  let a := Z4 + 167772160 in
+  let items := [(a + 10, a + 20); (a + 15, a + 30); (a + 12, a + 13); (a + 30, a + 31); (a + 33, a + 40);
+                (a + 10, a + 20); (5, 9)] in
+  forallb wf_rng items = true /\ no_zero_sentinel items = true /\
+  build go_insertion_sort items = [(a + 33, a + 40); (a + 10, a + 31); (5, 9)] /\
+  map (fun ip => table_search [7] (build go_insertion_sort items) ip) [a + 9; a + 10; a + 31; a + 32; a + 33; a + 41; 4; 5; 9; 10; 7]
+  = [false; true; true; false; true; false; false; true; true; false; true].
+Proof. exact C19_nonvacuous_lemma. Qed.
